@@ -26,10 +26,10 @@ func init() {
 				Procs:    16,
 				Rule: "(o) sparse-observation histories (trees of 64+ keys, operations chosen with locality, only the results of Get/Min/Max/Add/Replace/Remove themselves observed, on a tree and its clones), nested and interleaved scans (InorderAfter started inside a running scan; pull iterators on a tree and its clone stepped alternately), 8 goroutines each working on its own Clone of one prototype (also under -race); (i) rebuild sweep (seed-independent): the delete-side whole-tree rebuild is forced to run at exactly size s for every s <= 400 (2500 thorough) and for 2^k-3..2^k+3, k <= 13 (16), and the contents are compared afterwards; (ii) case = (beta, comparator granularity incl. comparators that return differences instead of -1/0/+1, bulk-New keys, phase-structured history of Add/Replace/Remove/Clear/Clone over up to 3 live trees). " +
 					"Phases: ascending / descending / zig-zag / random inserts, mixed random ops, drains (to empty, to 1/8, to 1/2; ascending, descending, random order), forced two-child removals followed by Get of the promoted successor, Clear, Clone. " +
-					"After EVERY call: Len, IsEmpty, Min, Max, full Inorder (with stored tags), Inorder early stop, Get for all/sampled keys, InorderAfter for sampled keys with early stop. " +
+					"After EVERY call: Len, IsEmpty, Min, Max, (every fifth step first a scan abandoned half-way: its loop body panics and the caller recovers,) full Inorder (with stored tags), Inorder early stop, Get for all/sampled keys, InorderAfter for sampled keys with early stop. " +
 					"beta: quick uses {0,1,2,50,100,250,500,750,999,1000}; thorough additionally sweeps every beta in 0..1000. " +
 					"distinct = hash of (beta, div, every op with its key); non-trivial = the history contained a scapegoat rebuild on insert, a delete-side whole rebuild, or a two-child removal (detected from the tree shape read through Root/Left/Right)",
-				Required:     []string{"insert_rebuilds", "delete_rebuilds", "two_child_removals", "new_with_duplicates", "clones", "replace_existing", "steps", "histories_with_wide_comparator", "rebuilds_at_exact_size", "clone_worker_rounds", "sparse_observation_histories", "nested_scan_cases"},
+				Required:     []string{"insert_rebuilds", "delete_rebuilds", "two_child_removals", "new_with_duplicates", "clones", "replace_existing", "steps", "histories_with_wide_comparator", "rebuilds_at_exact_size", "clone_worker_rounds", "sparse_observation_histories", "nested_scan_cases", "abandoned_scans"},
 				Assumptions:  []string{"reference model: sorted slice with textbook set semantics", "tree shape for reach counters is read through stree.Cursor (checked separately by C03)"},
 				CoverPkgs:    []string{"github.com/creachadair/mds/stree"},
 				CoverAnchors: []string{"stree/stree.go", "stree/node.go"},
@@ -92,6 +92,29 @@ func (h *c01hist) checkTree(ti int, focus int) {
 	if got := t.Max(); got != wmax {
 		h.fail("tree %d: Max=%v want %v", ti, got, wmax)
 		return
+	}
+	// A scan abandoned half-way: the loop body panics and the caller recovers.
+	// The scans verified next must be unaffected.
+	if n > 0 && h.steps%5 == 2 {
+		at := h.steps % n
+		fw.Panics(func() {
+			calls := 0
+			t.Inorder(func(Elem) bool {
+				if calls++; calls > at {
+					panic("scan abandoned by its loop body")
+				}
+				return true
+			})
+		})
+		fw.Panics(func() {
+			calls := 0
+			for range t.InorderAfter(Elem{Key: ref.es[at/2].Key, Tag: -1}) {
+				if calls++; calls > at/2 {
+					panic("scan abandoned by its loop body")
+				}
+			}
+		})
+		h.c.Add("abandoned_scans", 2)
 	}
 	// Full Inorder.
 	i := 0
